@@ -111,6 +111,16 @@ func cmdReplayCosOpt(args []string) error {
 			want = exp
 			// through the engine: the option drives which selectors the cosmetic engine returns
 			list := "##.generic\nh.test##.specific\n" + text + "\n"
+			if c.Kind == "exception" && len(mods) >= 2 && order == 1 {
+				// a $badfilter rule naming only ONE of the exception's modifiers is not its twin: it disables nothing
+				// ("document" stands for five modifiers and may well be the twin of "document,content": not used)
+				for _, one := range mods {
+					if one != "document" {
+						list += "@@||h.test^$" + one + ",badfilter\n"
+						break
+					}
+				}
+			}
 			st, err := filterlist.NewRuleStorage([]filterlist.RuleList{&filterlist.StringRuleList{ID: 1, RulesText: list}})
 			if err != nil {
 				return err
@@ -123,6 +133,8 @@ func cmdReplayCosOpt(args []string) error {
 			// change the cosmetic option of the page
 			res2 := e.MatchRequest(rules.NewRequest("http://h.test/", "http://h.test/index.html", rules.TypeDocument))
 			check("Engine.MatchRequest(same-site referrer)+GetCosmeticOption", optionSet(res2.GetCosmeticOption()), "")
+			// (an unrestricted lookup for the same host first: what it returns must not colour the restricted one)
+			_ = e.GetCosmeticResult("h.test", rules.CosmeticOptionAll)
 			cr := e.GetCosmeticResult("h.test", opt)
 			// decoded observation: specific selectors need css, generic ones css and gcss
 			var dec []string
